@@ -2,7 +2,13 @@
    reused by C05/C12/C13/C19) and the documented notion of nesting depth.  No proofs. *)
 From TL Require Import Lib.Base.
 
-Inductive fkind := FDef | FAsyncDef | FArrow | FMethod | FFnExpr | FGen.
+Inductive fkind := FDef | FAsyncDef | FArrow | FMethod | FFnExpr | FGen
+                   | FArrowExpr.   (* arrow function with an expression body: `(a) => (b) => { ... }`,
+                                      `(rows) => rows.map((x) => { ... })`; its children are the functions
+                                      inside the expression; it has no statements of its own *)
+
+(* function-like nodes that have a body of statements and are therefore judged *)
+Definition judged (fk : fkind) : bool := match fk with FArrowExpr => false | _ => true end.
 
 Inductive kind :=
 | KSimple
@@ -75,7 +81,7 @@ Definition nrep_eqb (a b : nrep) : bool :=
    depth exceeds the limit, each with that depth *)
 Definition spec_report (limit : nat) (file : list tree) : list nrep :=
   flat_map (fun f => let d := doc_depth (fn_body f) in
-                     if limit <? d then [(fn_line f, fn_col f, fn_name f, d)] else [])
+                     if judged (fn_kind f) && (limit <? d) then [(fn_line f, fn_col f, fn_name f, d)] else [])
            (file_functions file).
 
 (* wrap the deepest statement of a body in one more structure k *)
